@@ -355,6 +355,8 @@ class SR:
         # sqrt is monotone: compare two square roots through their radicands
         if s.tag and o.tag and s.tag[0] == 'sqrt' and o.tag[0] == 'sqrt':
             return SB(f(s.tag[1], o.tag[1]))
+        if OPTS.get('sympy_normalise'):
+            return SB(f(_normalise(s.e - o.e), z3.RealVal(0)))
         return SB(f(s.e, o.e))
 
     def __eq__(s, o):
@@ -427,10 +429,139 @@ def sqrt_atom(e):
     k = e.get_id()
     if k in c.sqrt_memo:
         return c.sqrt_memo[k][1]
+    if OPTS.get('sqrt_sympy'):
+        r = _perfect_square_root(e)
+        if r is not None:
+            val = r if SB(_normalise(r) >= 0) else -r      # fork instead of an If-term: keeps later terms rational functions
+            c.sqrt_memo[k] = (e, val)
+            return val
     q = c.fresh('sq')
     c.sqrt_memo[k] = (e, q)   # keep e alive so the id stays valid
     c.assume(q >= 0, q * q == e)
     return q
+
+
+def _to_sympy(e, syms):
+    import sympy
+    if z3.is_rational_value(e):
+        return sympy.Rational(e.numerator_as_long(), e.denominator_as_long())
+    if z3.is_const(e):
+        nm = e.decl().name()
+        if nm not in syms:
+            syms[nm] = (sympy.Symbol(nm.replace('!', '_').replace('.', '_'), real=True), e)
+        return syms[nm][0]
+    ch = [_to_sympy(c_, syms) for c_ in e.children()]
+    k = e.decl().kind()
+    if k == z3.Z3_OP_ADD:
+        return sympy.Add(*ch)
+    if k == z3.Z3_OP_SUB:
+        r = ch[0]
+        for c_ in ch[1:]:
+            r = r - c_
+        return r
+    if k == z3.Z3_OP_MUL:
+        return sympy.Mul(*ch)
+    if k == z3.Z3_OP_DIV:
+        return ch[0] / ch[1]
+    if k == z3.Z3_OP_UMINUS:
+        return -ch[0]
+    raise NotImplementedError(str(e.decl()))
+
+
+def _from_sympy(x, syms):
+    import sympy
+    if x.is_Rational:
+        return z3.RealVal('%d/%d' % (x.p, x.q))
+    if x.is_Symbol:
+        for nm, (sy, ze) in syms.items():
+            if sy == x:
+                return ze
+        raise KeyError(x)
+    if x.is_Add:
+        r = _from_sympy(x.args[0], syms)
+        for a in x.args[1:]:
+            r = r + _from_sympy(a, syms)
+        return r
+    if x.is_Mul:
+        r = _from_sympy(x.args[0], syms)
+        for a in x.args[1:]:
+            r = r * _from_sympy(a, syms)
+        return r
+    if x.is_Pow and x.exp.is_Integer:
+        b = _from_sympy(x.base, syms)
+        n = int(x.exp)
+        r = z3.RealVal(1)
+        for _ in range(abs(n)):
+            r = r * b
+        return r if n >= 0 else 1 / r
+    raise NotImplementedError(str(x))
+
+
+_NORM_CACHE = {}
+
+
+def _normalise(e):
+    """rational-function normal form num/den (sympy cancel) of a z3 real term built from + - * / over constants;
+    terms containing anything else (If, uninterpreted functions) are returned unchanged."""
+    k = e.get_id()
+    hit = _NORM_CACHE.get(k)
+    if hit is not None and hit[0] is not None and z3.eq(hit[0], e):
+        return hit[1]
+    try:
+        import sympy
+        syms = {}
+        x = sympy.cancel(sympy.together(_to_sympy(e, syms)))
+        num, den = sympy.fraction(x)
+        r = _from_sympy(sympy.expand(num), syms)
+        if den != 1:
+            r = r / _from_sympy(sympy.expand(den), syms)
+    except Exception:
+        r = e
+    if len(_NORM_CACHE) > 20000:
+        _NORM_CACHE.clear()
+    _NORM_CACHE[k] = (e, r)
+    return r
+
+
+def _perfect_square_root(e):
+    """if the rational function e is the square of a rational function r (as sympy sees it) return r as a
+    z3 term -- but only after z3 itself has confirmed r*r == e as an identity (sympy proposes, the solver decides)."""
+    try:
+        import sympy
+        syms = {}
+        x = sympy.factor(sympy.together(_to_sympy(e, syms)))
+        num, den = sympy.fraction(x)
+        rn, rd = sympy.sqrt(num), sympy.sqrt(den)
+        rn, rd = sympy.powdenest(rn, force=True), sympy.powdenest(rd, force=True)
+        r = sympy.simplify(sympy.sqrt(x).rewrite(sympy.Abs)) if False else None
+        # take square roots factor by factor
+        def root(poly):
+            c_, facs = sympy.factor_list(poly)
+            if c_ < 0:
+                return None
+            rc = sympy.sqrt(c_)
+            if not rc.is_Rational:
+                return None
+            out = rc
+            for f_, m_ in facs:
+                if m_ % 2:
+                    return None
+                out = out * f_ ** (m_ // 2)
+            return out
+        a, b = root(num), root(den)
+        if a is None or b is None:
+            return None
+        rz = _from_sympy(sympy.expand(a), syms) / _from_sympy(sympy.expand(b), syms)
+        s_ = z3.Solver()
+        s_.set('timeout', 5000)
+        for cnd in Ctx.cur.pc:
+            s_.add(cnd)
+        s_.add(z3.Not(rz * rz == e))
+        if str(s_.check()) == 'unsat':
+            return rz
+    except Exception:
+        return None
+    return None
 
 
 class NotImpl(Exception):
@@ -548,6 +679,8 @@ class SC:
             o = tosc(o)
         except NotImpl:
             return NotImplemented
+        if OPTS.get('sympy_normalise'):
+            return SB(z3.And(_normalise(s.real.e - o.real.e) == 0, _normalise(s.imag.e - o.imag.e) == 0))
         return SB(z3.And(s.real.e == o.real.e, s.imag.e == o.imag.e))
 
     def __ne__(s, o):
